@@ -397,7 +397,7 @@ def build():
                      requires=[('frontier-and-collector-are-different-lists', lambda c: c.p.parent_stmts != c.p.global_special_stmts)],
                      ghost_hooks={'before_stmt:last_stmts = self.analyze_block(': CallHook(hook_ab_for), 'before_stmt:last_stmts_condition_prebody = self.analyze_block(': CallHook(hook_ab_for),
                                   'before_stmt:last_stmts = self.deal_with_last_stmts_of_loop_body(': hook_close},
-                     modifies=lambda c: {'ghost:cfg_log': [c.old.attr(c.p.self, 'cfg')], 'list': (lambda a: z3.Or(a == S.addr(c.p.global_special_stmts), a >= c.old.next, a == S.addr(c.p.parent_stmts))),
+                     modifies=lambda c: {'ghost:cfg_log': [c.old.attr(c.p.self, 'cfg')], 'list': (lambda a: z3.Or(a == S.addr(c.p.global_special_stmts), a >= c.old.next)),
                                          'attr:stmt': (lambda a: a >= c.old.next), 'attr:edge': (lambda a: a >= c.old.next)}))
     return reg
 
